@@ -950,4 +950,6 @@ class Interp:
         if bits == (1 << 54) | 1:
             self.named_consts["sb"] = (1 << 27) | 1
             return R.mul(R.sym("sb"), R.sym("sb"))
-        raise Unsupported("unexpected GF(2^127) constant %#x" % bits)
+        name = "gf2c_%x" % bits
+        self.named_consts[name] = bits
+        return R.sym(name)
